@@ -722,8 +722,8 @@ def r5(c, rid="C07.R5"):
         erets = [n for n in walk_no_nested(entry) if isinstance(n, ast.Return) and isinstance(n.value, ast.Name) and n.value.id == FOUND]
         okp = len(erets) == 1 and NEXT == norm(hcall.args[0]) if hcall.args else False
         if okp:
-            fe = egm.formula(erets[0], G.GuardEnv(rename=lambda s_: "found" if s_.replace(" ", "") in (f"{FOUND}isnotNone", f"{FOUND}") else "nofound" if s_.replace(" ", "") == f"{FOUND}isNone" else s_))
-            okp = G.equivalent(fe, G.Atom("found")) or G.equivalent(fe, G.Not(G.Atom("nofound")))
+            fe = egm.formula(erets[0], G.GuardEnv(rename=lambda s_: "FOUND_" if s_.replace(" ", "") == f"{FOUND}isnotNone" else "NOFOUND_" if s_.replace(" ", "") == f"{FOUND}isNone" else s_))
+            okp = G.equivalent(fe, G.Atom("FOUND_")) or G.equivalent(fe, G.Not(G.Atom("NOFOUND_"))) or G.equivalent(fe, G.Atom(FOUND))
         c.check(rid, bool(okp), repo.loc(m, hcall), "match_deploy_rule/per-level-helper", "the answer of the per-level helper is not handed on as (rule found -> returned; otherwise the next "
                 "element is searched in the rules it answered)", key_text="split-pass")
     gm = GuardMap(fn)
